@@ -5,7 +5,7 @@ From CV Require Import Value.ValueEq Value.EqualM Value.CanonSpec Value.CanonM V
 Open Scope Z_scope.
 
 Definition all_cfixed (fx : cfix) : Prop :=
-  cx_complist fx = true /\ cx_bitpad fx = true /\
+  cx_complist fx = true /\ cx_bitpad fx = true /\ cx_farnull fx = true /\
   fx_depth (cx_rd fx) = true /\ fx_upgrade (cx_rd fx) = true /\ fx_bit (cx_rd fx) = true.
 
 (* [T2] whenever Canonicalize returns bytes, they are the specification's canonical form of
@@ -40,8 +40,8 @@ Qed.
    no pointers, at the end of the segment *)
 Definition msg_complist (tail : list Z) : segs :=
   [wbytes ([struct_word 0 0 1; list_word 0 7 2; struct_word 2 1 0; 7; 0] ++ tail)].
-Definition asfound := mkCFix false false rdfix.
-Definition repaired := mkCFix true true rdfix.
+Definition asfound := mkCFix false false false rdfix.
+Definition repaired := mkCFix true true true rdfix.
 
 Definition spec_bytes (m : segs) : option (option (list Z)) := fst (spec_canon 20 cfg0 rdfix m SelRoot 1024 64).
 
@@ -63,7 +63,7 @@ Qed.
 
 (* O2: dirty padding bits of a bit list (3 bits, byte 0xfd) *)
 Example canon_bitpad_prefix_refuted :
-  (exists bs, run_canon 30 cfg0 (mkCFix true false rdfix) (msg_bits 253) SelRoot = KOk bs
+  (exists bs, run_canon 30 cfg0 (mkCFix true false true rdfix) (msg_bits 253) SelRoot = KOk bs
               /\ spec_bytes (msg_bits 253) <> Some (Some bs))
   /\ (exists bs, run_canon 30 cfg0 repaired (msg_bits 253) SelRoot = KOk bs
                  /\ spec_bytes (msg_bits 253) = Some (Some bs)
